@@ -704,7 +704,7 @@ pub fn api_harness(spec: &RunSpec) -> RunOutput {
     let mut stage = 0u8;
     let mut ready = Vec::new();
     let mut parked = Vec::new();
-    let clean_cause = matches!(fault_kind.as_str(), "shutdown" | "drop_handles" | "broker_shutdown" | "shutdown_conn" | "broker_shutdown+send_error");
+    let clean_cause = matches!(fault_kind.as_str(), "shutdown" | "drop_handles" | "broker_shutdown" | "shutdown_conn" | "broker_shutdown+send_error" | "broker_shutdown+shutdown");
     // Exemptions that concern a broker shutdown apply to the combined cause too.
     let broker_shutdown_cause = fault_kind.starts_with("broker_shutdown");
 
@@ -756,6 +756,7 @@ pub fn api_harness(spec: &RunSpec) -> RunOutput {
                         "drop_handles" => "last_handle_dropped",
                         "broker_shutdown" => "broker_shutdown",
                         "broker_shutdown+send_error" => "broker_shutdown_with_send_failure",
+                        "broker_shutdown+shutdown" => "crossing_shutdowns",
                         _ => "broker_shutdown_conn",
                     }).or_insert(0) += 1;
                     match fault_kind.as_str() {
@@ -783,7 +784,14 @@ pub fn api_harness(spec: &RunSpec) -> RunOutput {
                             }
                             w.spawner.borrow_mut().retain(|(_, i, _)| i.client != v);
                         }
-                        "broker_shutdown" | "broker_shutdown+send_error" => {
+                        "broker_shutdown" | "broker_shutdown+send_error" | "broker_shutdown+shutdown" => {
+                            if fault_kind.ends_with("+shutdown") {
+                                // Crossing shutdowns: the victim asks to stop at the same moment.
+                                let h = w.clients[v].ctx.res.borrow().handle.clone();
+                                if let Some(h) = h {
+                                    h.shutdown();
+                                }
+                            }
                             if fault_kind.ends_with("send_error") {
                                 // The victim's sending direction breaks while the broker shuts down:
                                 // its next send (typically its own Shutdown) fails.
@@ -1089,7 +1097,7 @@ pub fn api_harness(spec: &RunSpec) -> RunOutput {
             h.u64(fault_client.unwrap_or(0) as u64);
             h.str(&fault_kind);
             h.u64(fault_at);
-            st.fault_point = Some((h.0, base, 8 * (n + 1)));
+            st.fault_point = Some((h.0, base, 9 * (n + 1)));
         }
     }
     let victim_ops = fault_client.and_then(|v| w.clients.get(v)).map(|c| c.ctl.borrow().ops).unwrap_or(0);
